@@ -548,6 +548,7 @@ def run_property(prop_id: str, tier: str, seed: int) -> int:
         "excluded_by_known_finding": excluded,
         "known_findings_seen": known_seen,
         "inconclusive_timeouts": inconclusive,
+        "timeout_samples": [jdump(prop.sample(c))[:400] for c in timeouts[:3]],
         "failing_buckets": {b: i["count"] for b, i in new_buckets.items()},
         "exhaustive": bool(exhaustive),
         "cut_short_by_budget": any(p["cut_short"] for p in parts),
